@@ -9,10 +9,15 @@
    wrapper's own effects (prints, warnings, the counter, the warning filter) live in a
    separate component of the state.
 
-   Coroutines: a callee is used either synchronously (c_mode = false) or as a coroutine
-   function whose result is awaited (c_mode = true).  c_run is the effect of running its
-   body; calling a coroutine function without awaiting yields a pending token and runs
-   nothing; awaiting something that is not awaitable raises TypeError.                    *)
+   Coroutines: every callable has two phases.  c_call is what CALLING it does: a plain
+   function (or a synchronous wrapper) runs its body, a coroutine function only binds the
+   arguments (TypeError now, not later) and hands back a coroutine object (VPending /
+   VWrapperCoro: a token that remembers the arguments).  c_resume is what AWAITING that
+   token does.  A synchronous wrapper around a coroutine function therefore runs its own
+   statements at call time and passes the callee's token up; the caller's await resumes
+   the callee.  c_mode says how the callable is used at top level: like its undecorated
+   twin (c_mode = true: the twin is an `async def`, the result is awaited).  Awaiting
+   something that is not awaitable raises TypeError.                                       *)
 From Coq Require Import List ZArith Bool String.
 From PV Require Import Base.Exn.
 Import ListNotations.
@@ -26,7 +31,7 @@ Inductive val :=
 | VCls (n : nat)             (* a class object *)
 | VOpaque                    (* something the wrapper computed itself (datetime, timedelta ...) *)
 | VPending (c : callee) (a : list val) (k : list (string * val))   (* coroutine object of c( *a, **k ), not awaited *)
-| VWrapperCoro.              (* coroutine object of an async wrapper that nobody awaited *)
+| VWrapperCoro (a : list val) (k : list (string * val)).          (* coroutine object of an async wrapper called with ( *a, **k ) *)
 
 Inductive xid := XId (n : nat) | XFresh (site : nat).   (* identity of an exception instance *)
 
@@ -172,8 +177,9 @@ Section Exec.
 
   Definition csem := args -> kwargs -> st Sigma -> res * st Sigma.
   Record cdesc := { c_iscoro : bool;      (* inspect.iscoroutinefunction(callee) *)
-                    c_mode : bool;        (* the callee's result has to be awaited (it is, at bottom, a coroutine function) *)
-                    c_run : csem }.       (* running the body (sync: the call; coroutine: call + await) *)
+                    c_mode : bool;        (* at bottom a coroutine function: whoever uses it like the twin awaits the result *)
+                    c_call : csem;        (* calling it *)
+                    c_resume : csem }.    (* awaiting the coroutine object it handed back for these arguments *)
 
   Record ctx := {
     cx_callee : callee -> cdesc;
@@ -219,15 +225,16 @@ Section Exec.
     | CFalse => Some false
     end.
 
+  (* coroutine objects of wrappers are always on the decorated function's side *)
   Definition await_val (v : val) (s : st Sigma) : res * st Sigma :=
     match v with
-    | VPending c a k => c_run (cx_callee cx c) a k s
+    | VPending c a k => c_resume (cx_callee cx c) a k s
+    | VWrapperCoro a k => c_resume (cx_callee cx CFunc) a k s
     | _ => (RExc TypeErrorC (XFresh 0), s)
     end.
 
   Definition do_call (c : callee) (a : args) (k : kwargs) (awaited : bool) (s : st Sigma) : res * st Sigma :=
-    let d := cx_callee cx c in
-    let (r, s1) := if c_mode d then (ROk (VPending c a k), s) else c_run d a k s in
+    let (r, s1) := c_call (cx_callee cx c) a k s in
     if awaited then match r with ROk v => await_val v s1 | _ => (r, s1) end else (r, s1).
 
   Definition the_args (a : argspec) : args := match a with ArgsSame => A | ArgsOther => args_other end.
@@ -339,21 +346,13 @@ Section Exec.
     | (FUnmodelled, s') => (RUnmodelled, s')
     end.
 
-  (* the caller awaits what a synchronous wrapper handed back for a coroutine callee *)
-  Definition finish (mode : bool) (r : res) (s : st Sigma) : res * st Sigma :=
-    if mode then match r with ROk v => await_val v s | _ => (r, s) end else (r, s).
-
-  Definition call_variant (v : wvariant) (s : st Sigma) : res * st Sigma :=
-    let mode := c_mode (cx_callee cx CFunc) in
-    if w_async v then
-      if mode then run_body (w_body v) s else (ROk VWrapperCoro, s)
-    else let (r, s') := run_body (w_body v) s in finish mode r s'.
 End Exec.
 
 Arguments c_iscoro {Sigma} _.
 Arguments c_mode {Sigma} _.
-Arguments c_run {Sigma} _.
-Arguments Build_cdesc {Sigma} _ _ _.
+Arguments c_call {Sigma} _.
+Arguments c_resume {Sigma} _.
+Arguments Build_cdesc {Sigma} _ _ _ _.
 Arguments cx_callee {Sigma} _.
 Arguments cx_param {Sigma} _.
 Arguments cx_rename {Sigma} _.
@@ -364,8 +363,6 @@ Arguments cx_warn_prog {Sigma} _.
 Arguments Build_ctx {Sigma} _ _ _ _ _ _ _.
 Arguments exec {Sigma} _ _ _ _ _ _ _.
 Arguments run_body {Sigma} _ _ _ _ _.
-Arguments call_variant {Sigma} _ _ _ _ _.
-Arguments finish {Sigma} _ _ _ _.
 Arguments do_call {Sigma} _ _ _ _ _ _.
 Arguments await_val {Sigma} _ _ _.
 
@@ -403,23 +400,52 @@ Fixpoint run_pre (l : list dstmt) (enabled : bool) (dir_of : string -> bool) : p
   | DOpaque :: l' => run_pre l' enabled dir_of
   end.
 
+(* the arguments remembered by a coroutine object of the decorated function's side *)
+Definition tok_args (v : val) : option (args * kwargs) :=
+  match v with
+  | VPending CFunc a k => Some (a, k)
+  | VWrapperCoro a k => Some (a, k)
+  | _ => None
+  end.
+
 Section Use.
   Variable Sigma : Type.
 
-  (* calling the decorated callable the way its undecorated twin is called *)
-  Definition use_wrapped (d : deco) (cx : ctx Sigma) : csem Sigma := fun a k s =>
-    let f := cx_callee cx CFunc in
-    match select d (c_iscoro f) with
-    | ChFunc => c_run f a k s
-    | ChVariant v => call_variant cx a k v s
-    | ChBroken => (RUnmodelled, s)
-    end.
+  (* using a callable the way the undecorated twin is used: call it, and await the result when the twin is a
+     coroutine function *)
+  Definition use_callee (f : cdesc Sigma) : csem Sigma := fun a k s =>
+    let (r, s1) := c_call f a k s in
+    if c_mode f then
+      match r with
+      | ROk v => match tok_args v with
+                 | Some (a', k') => c_resume f a' k' s1
+                 | None => (RExc TypeErrorC (XFresh 0), s1)
+                 end
+      | _ => (r, s1)
+      end
+    else (r, s1).
 
+  Definition unmodelled_callee (mode : bool) : cdesc Sigma :=
+    {| c_iscoro := false; c_mode := mode; c_call := fun _ _ s => (RUnmodelled, s); c_resume := fun _ _ s => (RUnmodelled, s) |}.
+
+  (* what the decorator hands back for the function in cx *)
   Definition as_callee (d : deco) (cx : ctx Sigma) : cdesc Sigma :=
     let f := cx_callee cx CFunc in
-    {| c_iscoro := chosen_async (select d (c_iscoro f)) (c_iscoro f);
-       c_mode := c_mode f;
-       c_run := use_wrapped d cx |}.
+    match select d (c_iscoro f) with
+    | ChFunc => f
+    | ChVariant v =>
+      if w_async v then
+        {| c_iscoro := true; c_mode := c_mode f;
+           c_call := fun a k s => (ROk (VWrapperCoro a k), s);
+           c_resume := fun a k s => run_body cx a k (w_body v) s |}
+      else
+        {| c_iscoro := false; c_mode := c_mode f;
+           c_call := fun a k s => run_body cx a k (w_body v) s;
+           c_resume := c_resume f |}
+    | ChBroken => unmodelled_callee (c_mode f)
+    end.
+
+  Definition use_wrapped (d : deco) (cx : ctx Sigma) : csem Sigma := use_callee (as_callee d cx).
 
   Definition with_callee (cx : ctx Sigma) (f : cdesc Sigma) : ctx Sigma :=
     {| cx_callee := fun c => match c with CFunc => f | COther => cx_callee cx COther end;
@@ -431,6 +457,8 @@ Section Use.
     use_wrapped d1 (with_callee cx1 (as_callee d2 cx2)).
 End Use.
 
+Arguments use_callee {Sigma} _ _ _ _.
+Arguments unmodelled_callee {Sigma} _.
 Arguments use_wrapped {Sigma} _ _ _ _ _.
 Arguments as_callee {Sigma} _ _.
 Arguments with_callee {Sigma} _ _.
@@ -459,7 +487,7 @@ Definition count_of (c : callee) (j : jst) : nat :=
 
 Definition beh := callee -> args -> kwargs -> nat -> outcome val.
 
-(* accepts: does Python's argument binding succeed (else TypeError before the body runs) *)
+(* accepts: does Python's argument binding succeed (else TypeError at call time, before any body runs) *)
 Definition run_beh (b : beh) (accepts : callee -> args -> kwargs -> bool) (c : callee) : csem jst := fun a k s =>
   if accepts c a k then
     let i := count_of c (cs s) in
@@ -469,6 +497,16 @@ Definition run_beh (b : beh) (accepts : callee -> args -> kwargs -> bool) (c : c
     | Raise e => (RExc e (XId (match c with CFunc => i | COther => 1000 + i end)), s')
     end
   else (RExc TypeErrorC (XFresh 6), s).
+
+(* a plain `def` (iscoro = false) or a plain `async def` (iscoro = true) with that behaviour *)
+Definition beh_callee (b : beh) (accepts : callee -> args -> kwargs -> bool) (c : callee) (iscoro : bool) : cdesc jst :=
+  if iscoro then
+    {| c_iscoro := true; c_mode := true;
+       c_call := fun a k s => if accepts c a k then (ROk (VPending c a k), s) else (RExc TypeErrorC (XFresh 6), s);
+       c_resume := run_beh b accepts c |}
+  else
+    {| c_iscoro := false; c_mode := false; c_call := run_beh b accepts c;
+       c_resume := fun _ _ s => (RExc TypeErrorC (XFresh 0), s) |}.
 
 (* ---- classes: for_all_methods ---------------------------------------------------------- *)
 Inductive member := MFunc | MStatic | MClassM | MProp | MOther.
